@@ -80,10 +80,46 @@ def variant_import_failure(pid, shard, out_path):
     return None
 
 
+def shift_clock(years: float):
+    """Make the wall clock of this process read `years` later (time.time, datetime.now/today/utcnow, date.today)
+    before the package under test is imported.  Monotonic clocks - which every time-out of the harness uses -
+    are untouched."""
+    import datetime  # noqa: PLC0415
+
+    off = years * 365.25 * 86400
+    real = time.time
+    time.time = lambda: real() + off
+    real_ns = time.time_ns
+    time.time_ns = lambda: real_ns() + int(off * 1e9)
+
+    class date(datetime.date):  # noqa: N801
+        @classmethod
+        def today(cls):
+            return cls.fromtimestamp(time.time())
+
+    class datetime_(datetime.datetime):
+        @classmethod
+        def now(cls, tz=None):
+            return cls.fromtimestamp(time.time(), tz)
+
+        @classmethod
+        def utcnow(cls):
+            return cls.fromtimestamp(time.time(), datetime.timezone.utc).replace(tzinfo=None)
+
+        @classmethod
+        def today(cls):
+            return cls.fromtimestamp(time.time())
+
+    datetime_.__name__ = datetime_.__qualname__ = "datetime"
+    datetime.date, datetime.datetime = date, datetime_
+
+
 def main():
     pid, shard_path, out_path = sys.argv[1:4]
     with open(shard_path, encoding="utf-8") as fp:
         shard = json.load(fp)
+    if shard.get("_clock_years"):
+        shift_clock(float(shard["_clock_years"]))
     faulthandler.enable()
     wd = float(shard.get("_watchdog_s", 0) or 0)
     if wd:
